@@ -8,6 +8,7 @@
 //   aopt <layer> <code> x<data> add_option(option(code, data))     -> "P 1 <view>"
 //   ropt <layer> <code>         remove_option(code)                 -> "P 0|1 <view>"
 //   sopt <layer> <code>         search_option(code)                 -> "O 0" | "O 1 x<data>"
+//   icmpext <layer> x<data>     add an RFC 4884 extension object to an ICMP/ICMPv6 layer
 //   val <layer> <field> <value> the printed form of the argument set would pass -> "V <value>"
 //   ser                         size() + serialize()                   -> "S <size> x<bytes> [M <type> <what> <offset>]*"  (M = hook H1 reports)
 //   rt <Entry>                  serialize, re-parse with Entry, serialize again -> "Q <view>" then "S2 <size> x<bytes>"
@@ -128,6 +129,16 @@ static void run(const Script& s) {
                 if (r < 0) { printf("N\n"); continue; }
                 if (op == "sopt") printf("O %d %s\n", r, found.c_str());
                 else printf("P %d %s\n", r, vacc::describe(*pkt).c_str());
+            } else if (op == "icmpext" && pkt) {
+                // add an RFC 4884 extension object (class 1, type 1) to an ICMP / ICMPv6 layer
+                PDU* l = layer_at(pkt.get(), (int)num(t[1]));
+                bytes d = unhex(t[2]);
+                ICMPExtension e(1, 1);
+                e.payload(ICMPExtension::payload_type(d.begin(), d.end()));
+                if (ICMP* i4 = dynamic_cast<ICMP*>(l)) i4->extensions().add_extension(e);
+                else if (ICMPv6* i6 = dynamic_cast<ICMPv6*>(l)) i6->extensions().add_extension(e);
+                else { printf("N\n"); continue; }
+                printf("P %s\n", vacc::describe(*pkt).c_str());
             } else if (op == "val" && pkt) {
                 PDU* l = layer_at(pkt.get(), (int)num(t[1]));
                 if (!l) { printf("N\n"); continue; }
